@@ -1,11 +1,11 @@
 package rules
 
 import (
-	"strconv"
 	"fmt"
 	"go/ast"
 	"go/constant"
 	"regexp"
+	"strconv"
 	"strings"
 
 	"golang.org/x/tools/go/packages"
